@@ -855,4 +855,42 @@ theorem feedback_stream_witness :
     processLines names (limitedLines 16 (printed (msgs.drop 1))) = ([], msgs.drop 1) := by
   decide
 
+/-! ## The reference client's feedback (mode server)
+
+The other source of `recordSideband`: the reference client reports what it found wrong with a
+response in `ClientResponseResult.feedback`; the runner records every message for the test case
+the response names.  No text is parsed on this path: whatever the message and the test name are
+made of, the feedback of a case is attributed to that case and to no other. -/
+
+open ConfModel.FeedbackStream in
+/-- **client_feedback_attributed.**  After the responses of a batch (one per test case), the
+runner holds for each test case exactly the last feedback message of its own response - nothing
+if the response had none - whatever the responses of the other cases say, for all texts. -/
+theorem client_feedback_attributed (before after : List (List Char × List (List Char)))
+    (nm : List Char) (msgs : List (List Char))
+    (hb : ∀ r ∈ before, r.1 ≠ nm) (ha : ∀ r ∈ after, r.1 ≠ nm) :
+    sideband (clientRecords (before ++ (nm, msgs) :: after)) nm = msgs.getLast? := by
+  have h1 : sideband (clientRecords after) nm = none :=
+    sideband_none _ nm (clientRecords_names after nm ha)
+  have h2 : sideband (clientRecords before) nm = none :=
+    sideband_none _ nm (clientRecords_names before nm hb)
+  rw [clientRecords_append, sideband_append]
+  simp only [clientRecords]
+  rw [sideband_append, h1]
+  simp only
+  rw [sideband_own]
+  cases hm : msgs.getLast? with
+  | some m => rfl
+  | none => simpa using h2
+
+open ConfModel.FeedbackStream in
+/-- Non-vacuity: a message that looks like a sideband line of another case stays with its own case. -/
+example : (∀ r ∈ [("A".toList, ["x".toList])], r.1 ≠ "B".toList) ∧
+    sideband (clientRecords [("A".toList, ["x".toList]), ("B".toList, ["A: not yours".toList, "100%".toList]), ("C".toList, [])])
+      "B".toList = some "100%".toList ∧
+    sideband (clientRecords [("A".toList, ["x".toList]), ("B".toList, ["A: not yours".toList]), ("C".toList, [])])
+      "A".toList = some "x".toList ∧
+    sideband (clientRecords [("A".toList, ["x".toList]), ("B".toList, ["A: not yours".toList]), ("C".toList, [])])
+      "C".toList = none := by decide
+
 end ConfModel.Props.C12
